@@ -27,6 +27,17 @@ def run(repo, rep):
     rep.clause("C02-o", "every present core gets its weight and scale window programmed by every operation that has weights: an idle core gets length 0 (the registers are persistent; "
                "check_mem_limits only sees the operation's own ranges)")
     idle_core_windows(repo, rep, "C02-o")
+    rep.clause("C02-q", "register / operand agreement: a helper that writes IFM2 (IFM, OFM) registers is handed the ifm2 (ifm, ofm) feature map - layout and type bits belong to the operand whose addresses and strides are emitted")
+    from .shared import register_operand_agreement
+
+    if register_operand_agreement(repo, rep, "C02-q") < 8:
+        raise AnalysisError("register_command_stream_generator: fewer than 8 calls name both a register family and an operand")
+    rep.clause("C02-r", "a resize of a 1x1 feature map becomes an ADD with a zero constant of the OFM's shape (an operand smaller than the OFM without broadcast bits is read past its end)")
+    rule_resize_1x1_constant(repo, rep)
+    rep.clause("C02-s", "OFM boxes of depth slices are clamped to the operator's write window [ofm_start.depth, ofm_end.depth] (a channel-axis concatenation input is not read beyond its own depth) [rule shared with C10-a]")
+    from . import c10 as _c10
+
+    rep.run_borrowed(_c10, {"C10-a": "C02-s"}, repo)
     rule_a(repo, rep)
     rule_b(repo, rep)
     rule_c(repo, rep)
@@ -883,3 +894,29 @@ def rule_batched_fc_view(repo, rep):
     rep.check(wrong is None, "C02-p", "ethosu/vela/tflite_graph_optimiser.py:convert_batched_fc_shape", f"batch n becomes [1, h, w, C] with h * w == n ({pts} views, n = 2 .. 40)",
               (f"batch {wrong[0]}: {wrong[1]}[0] becomes [{wrong[2]}, {wrong[3]}, {wrong[4]}, C], {wrong[3] * wrong[4]} positions for {wrong[0]} rows: boxes, strides and the coordinate assertions follow the "
                "operator's view, so the operator reads and writes past the end of its tensors") if wrong else "")
+
+
+def rule_resize_1x1_constant(repo, rep):
+    go = repo.mod("tflite_graph_optimiser")
+    f = go.func("convert_resize_1x1_to_add")
+    site = "ethosu/vela/tflite_graph_optimiser.py:convert_resize_1x1_to_add"
+    cs = [c for c in ast.walk(f) if isinstance(c, ast.Call) and call_name(c) == "create_const_tensor"]
+    if len(cs) != 1 or len(cs[0].args) < 4:
+        raise AnalysisError("convert_resize_1x1_to_add: the zero constant is not created by one create_const_tensor call")
+
+    def origin(e, depth=0):
+        if isinstance(e, ast.Name) and depth < 4:
+            defs = [a for a in ast.walk(f) if isinstance(a, ast.Assign) and len(a.targets) == 1 and str(norm(a.targets[0])) == e.id]
+            if len(defs) == 1:
+                return origin(defs[0].value, depth + 1)
+        return str(norm(e))
+
+    shp = origin(cs[0].args[1])
+    vals = origin(cs[0].args[3])
+    ok_shape = "ofm_shapes[0]" in shp or "ofm.shape" in shp
+    ok_vals = True
+    if vals.startswith("np.zeros(") or vals.startswith("numpy.zeros("):
+        zc = [c for c in ast.walk(f) if isinstance(c, ast.Call) and call_name(c) in ("np.zeros", "numpy.zeros")]
+        ok_vals = bool(zc) and all("ofm_shapes[0]" in origin(c.args[0]) or "ofm.shape" in origin(c.args[0]) for c in zc)
+    rep.check(ok_shape and ok_vals, "C02-r", site, "the zero operand has the OFM's shape", f"shape `{shp}`, values `{vals}`: the ADD keeps its HxWxC OFM while both operands are 1x1xC with no broadcast: "
+              "the constant is read as an HxWxC feature map, past the end of the constants tensor (demonstrated: 1x1x16 -> 160x160 reads [0, 5072) of 2032 bytes)")
